@@ -185,6 +185,22 @@ def short_callee(full):
     return s2
 
 
+INT_RADIX = re.compile(r"^(i8|i16|i32|i64|i128|isize|u8|u16|u32|u64|u128|usize)::from_str_radix(!|!err)?$")
+
+
+def canon_call(name, args):
+    """library identities between spellings of one call"""
+    # `T::from_str(s)` is `T::from_str_radix(s, 10)` (its whole body) for the integer types
+    m = INT_RADIX.match(name)
+    if m and len(args) == 2 and args[1] == "10":
+        return "%s::from_str%s" % (m.group(1), m.group(2) or ""), args[:1]
+    # `&s[a..s.len()]` is `&s[a..]`
+    if name == "str::index" and len(args) == 2 and isinstance(args[1], tuple) and len(args[1]) == 3 and args[1][0] == "Range" \
+            and args[1][2] == ("str::len", args[0]):
+        return name, [args[0], ("RangeFrom", args[1][1])]
+    return name, args
+
+
 def norm(v):
     """normalised term (nested tuples of strings) of a resolved TSS value"""
     k = v[0]
@@ -240,6 +256,8 @@ def norm(v):
             args = sorted(args, key=repr)
         if name.startswith("cast:"):
             name = name.replace("std::", "")
+        if name in ("Sub", "Add") and len(args) == 2 and args[1] == "0":
+            return args[0]
         return (name,) + tuple(args)
     if k == "call":
         name = short_callee(v[1])
@@ -260,6 +278,7 @@ def norm(v):
                 name, args = ("Lt" if name == "Gt" else "Le"), args[::-1]
         if name in COMMUTATIVE:
             args = sorted(args, key=repr)
+        name, args = canon_call(name, args)
         t = (name,) + tuple(args)
         if len(v) > 3:
             t = t + ("#%d" % v[3],)
@@ -273,6 +292,8 @@ def norm(v):
         if e == ("field", 0) and base[0] == "op" and base[1] in OVERFLOW_OPS:
             name = OVERFLOW_OPS[base[1]]
             args = [norm(x) for x in base[2]]
+            if name in ("Sub", "Add") and len(args) == 2 and args[1] == "0":
+                return args[0]
             if name in COMMUTATIVE:
                 args = sorted(args, key=repr)
             return (name,) + tuple(args)
@@ -286,11 +307,11 @@ def norm(v):
                 return (name,) + tuple(args)
         if e[0] == "vf" and base[0] == "call" and e[1] in ("Some", "Ok") and e[2] == 0:
             # the value a fallible call produced when it succeeded
-            sc = short_callee(base[1])
-            return (sc + "!",) + tuple(norm(x) for x in base[2])
+            sc, a_ = canon_call(short_callee(base[1]) + "!", [norm(x) for x in base[2]])
+            return (sc,) + tuple(a_)
         if e[0] == "vf" and base[0] == "call" and e[1] == "Err" and e[2] == 0:
-            sc = short_callee(base[1])
-            return (sc + "!err",) + tuple(norm(x) for x in base[2])
+            sc, a_ = canon_call(short_callee(base[1]) + "!err", [norm(x) for x in base[2]])
+            return (sc,) + tuple(a_)
         nb = norm(base)
         if e[0] == "vf":
             return ("." + e[1] + "." + str(e[2]), nb)
@@ -339,7 +360,8 @@ def norm_cond(c):
                 args = sorted(args, key=repr)
             return (show((name,) + tuple(args)), "ok" if val in ("Some", "Ok") else "fails")
     if subj[0] == "call" and rel == "is" and val in ("Some", "Ok", "None", "Err"):
-        t = (short_callee(subj[1]),) + tuple(norm(x) for x in subj[2])
+        sc_, a_ = canon_call(short_callee(subj[1]), [norm(x) for x in subj[2]])
+        t = (sc_,) + tuple(a_)
         if len(subj) > 3:
             t = t + ("#%d" % subj[3],)
         return (show(t), "ok" if val in ("Some", "Ok") else "fails")
